@@ -170,7 +170,8 @@ class Spec(core.PropSpec):
         return dict(cls="schedule", rem=rem, nest=rw.choice(["plain", "plain", "compose", "compose2"]), inner=inner, schedule=rw.choice(SCHEDULES), K=rw.choice([0, 1, 2, 2, 3, 4]), B=B, n_batches=n_batches,
                     hook=kind, epochs=epochs, drop_last=rw.random() < 0.5, prefetch=rw.choice([1, 2, 3]), seed=ro.randint(0, 10 ** 6),
                     sched_seed=ro.getrandbits(32), perm_seed=ro.getrandbits(16),
-                    main_pre_access=[ro.randint(0, 3) for _ in range(ro.randint(1, 3))] if ro.random() < 0.25 else [])
+                    main_pre_access=[ro.randint(0, 3) for _ in range(ro.randint(1, 3))] if ro.random() < 0.25 else [],
+                    start_method=ro.choice(["fork", "fork", "spawn"]), preempt_rate=ro.choice([0, 0, 0.05, 0.2, 0.5]))
 
     def shrink_candidates(self, plan):
         if plan["cls"] == "shared":
@@ -186,6 +187,10 @@ class Spec(core.PropSpec):
                 yield dict(plan, schedule="default")
             if plan.get("main_pre_access"):
                 yield dict(plan, main_pre_access=[])
+            if plan.get("preempt_rate"):
+                yield dict(plan, preempt_rate=0)
+            if plan.get("start_method") == "spawn":
+                yield dict(plan, start_method="fork")
 
     def execute(self, plan):
         out = core.Outcome()
@@ -511,6 +516,9 @@ class Spec(core.PropSpec):
         class Ld(SimDataLoader):
             chooser = Chooser(seed=plan["sched_seed"])
             trace = []
+            start_method = plan.get("start_method", "fork")
+            preempt = dict(seed=plan["sched_seed"], rate=plan["preempt_rate"]) if plan.get("preempt_rate") else None
+            switches = 0
 
         try:
             for i in plan.get("main_pre_access") or []:
@@ -529,7 +537,12 @@ class Spec(core.PropSpec):
             out.violate(f"C15:schedule-raises:{type(e).__name__}", site, f"{type(e).__name__}: {e}")
             return
         out.ev("schedule", Ld.trace)
-        order = [t[1] for t in Ld.trace if t[0] != "main"]
+        if Ld.switches:
+            out.count("fault:worker_preempted_inside_a_sample", Ld.switches)
+        if K >= 1 and Ld.start_method == "spawn":
+            out.count("fault:workers_started_with_spawn")
+            out.tags.append("spawn")
+        order = [t[1] for t in Ld.trace if t[0] != "main" and len(t) == 2]
         if order != sorted(order):
             out.count("fault:out_of_order_completion")
         ref_sched = st.schedule
@@ -580,6 +593,9 @@ class Spec(core.PropSpec):
     def extra_evidence(self, tier, seed):
         from simkit.simloader import stub_validation
         sv = stub_validation(3 if tier == "quick" else 25, seed)
+        if tier != "quick":
+            from simkit.simloader import spawn_model_validation
+            sv["spawn_sharing_model_vs_real_DataLoader"] = spawn_model_validation()
         return {"stub_validation": sv, "traces_validated_against_impl": sv["batches_compared"]}
 
 
